@@ -79,7 +79,7 @@ class Ctx:
         return ' :: '.join(parts)
 
     def loc(self, func, node):
-        return f'{func.unit.relpath}:{getattr(node, "lineno", func.node.lineno)}'
+        return f'{func.unit.relpath}:{int(round(getattr(node, "lineno", func.node.lineno)))}'
 
     def ok(self, rule, construct, why, loc=None):
         o = Obligation(self.prop, rule, construct, 'discharged', why, None, loc)
